@@ -12,7 +12,15 @@ def run_one(name, tier, props=None):
     meta = json.load(open(os.path.join(d, "meta.json")))
     wt = "/tmp/mut-%s" % name
     subprocess.run("git -C /repo worktree remove --force %s" % wt, shell=True, stdout=subprocess.DEVNULL, stderr=subprocess.DEVNULL)
-    subprocess.check_call("git -C /repo worktree add -q %s %s && cd %s && git apply %s/patch.diff" % (wt, meta.get("base_commit", "HEAD"), wt, d), shell=True)
+    # apply on /repo's HEAD when the patch still applies there (so that defects already repaired in
+    # /repo do not blur the outcome), else on the commit the defect was written against
+    subprocess.check_call("git -C /repo worktree add -q %s HEAD" % wt, shell=True)
+    applied_on = "HEAD"
+    if subprocess.call("cd %s && git apply %s/patch.diff" % (wt, d), shell=True, stderr=subprocess.DEVNULL) != 0:
+        subprocess.check_call("git -C /repo worktree remove --force %s && git -C /repo worktree add -q %s %s && cd %s && git apply %s/patch.diff" % (
+            wt, wt, meta.get("base_commit", "HEAD"), wt, d), shell=True)
+        applied_on = meta.get("base_commit")
+    meta["applied_on"] = applied_on
     res = {}
     try:
         for prop in (props or [meta["property"]]):
